@@ -109,4 +109,43 @@ example : (match genSingle exModel { exQuery with limit := some 0 } with
      | .ok p => (p.eval exDb).length == 0
      | .error _ => false) = true := by decide
 
+/-! ### ungrouped queries -/
+
+/-- coverage of an ungrouped plan: one CTE, one non-aggregating SELECT, whose fusion is syntactically the flat
+form of `Spec.ungrouped`; decidable, evaluated by the driver on every generated case (evidence:
+`cases_inside_theorem_C01_ungrouped`) -/
+structure CoveredRaw (m : SModel) (q : Query) (p : Plan) (c : Cte) : Prop where
+  gen : genSingle m q = .ok p
+  fusable : p.fusableRaw c = true
+  same : p.fuseRaw c = Spec.flatRaw m q
+
+/-- **Ungrouped queries.** One output row per base row satisfying the filters, in source order; every dimension
+column is the dimension's expression on that row and every metric column is the measure's expression on that row
+(1 for COUNT(*), the key for a distinct-key count), NULL where the measure's own filters reject the row — for all
+table contents. -/
+theorem C01_ungrouped {m : SModel} {q : Query} {p : Plan} {c : Cte} (h : CoveredRaw m q p c) (db : DB) :
+    p.body db = Spec.ungrouped m q (c.source.rows db) := by
+  rw [body_fuse_raw p c db h.fusable, h.same, Spec.ungrouped_eq_flatRaw]
+
+/-- an ungrouped plan has the same columns as the reference -/
+theorem C01_ungrouped_columns {m : SModel} {q : Query} {p : Plan} {c : Cte} (h : CoveredRaw m q p c) :
+    p.columns = Spec.columns m q := by
+  obtain ⟨_, _, _, _, h5, h6⟩ := fusableRaw_parts h.fusable
+  have hs := congrArg (fun fq : FlatRaw => fq.items.map (·.alias)) h.same
+  simp only [Plan.fuseRaw, Spec.flatRaw, filterMap_alias c _ h6, List.map_append, List.map_map] at hs
+  unfold Plan.columns Spec.columns
+  simp only [h5, if_true]
+  rw [hs]
+  rfl
+
+def exQueryRaw : Query := { exQuery with ungrouped := true }
+def exPlanRaw : Plan := match genSingle exModel exQueryRaw with | .ok p => p | .error _ => default
+def exCteRaw : Cte := exPlanRaw.ctes.headD default
+
+/-- the hypotheses of `C01_ungrouped` are met by a concrete model with a filtered COUNT(*) measure -/
+example : (match genSingle exModel exQueryRaw with | .ok p => p == exPlanRaw | .error _ => false) = true ∧
+    exPlanRaw.fusableRaw exCteRaw = true ∧ exPlanRaw.fuseRaw exCteRaw = Spec.flatRaw exModel exQueryRaw ∧
+    (exPlanRaw.body exDb).length = 4 := by
+  refine ⟨?_, ?_, ?_, ?_⟩ <;> decide
+
 end SideVerif
